@@ -80,3 +80,5 @@ pub fn symbol_ops_flat(
     }
     (flat, order)
 }
+
+pub use crate::constraint_matrix::generate_constraint_matrix_no_hdpc;
